@@ -389,8 +389,9 @@ class Exec:
         ra, ca = self.aff(r) if self.is_int(r) else None, self.aff(c) if self.is_int(c) else None
         if ra is None or ca is None or ca.c:
             raise Unsupported("row / column index of a 2-d access")
-        if not (0 <= ca.k < cols):
+        if ca.k < 0:
             raise Unsupported(f"column {ca.k} of a {cols}-column array")
+        # a column >= cols is kept as the flat cell it would be in C: the counter-balance rule then reports a row that is not filled exactly
         return aff_ir(ra.scale(cols) + ca)
 
     # ---- memory
@@ -1481,6 +1482,56 @@ def reparametrise(ts):
     return ts
 
 
+# ---- retiming
+def retime(ts, parent):
+    """a counter that every entry into an inner loop advances by the same constant c (the stack index in `push`, an input cursor read with
+    `*p++`, a loop counter incremented right after its use) is taken at the inner loop head as v - c: the increment then sits on the way out
+    of the inner loop, wherever the source put it.  An exact change of variables per cut point; `parent`: inner loop head -> enclosing head"""
+    ex = ts.ex
+    for node, par in parent.items():
+        if par is None or node not in ts.state:
+            continue
+        ent = [t for t in ts.trans if t["dst"] == node and t["src"] != node]
+        if not ent:
+            continue
+        shift = {}
+        for v, k in ts.state[node].items():
+            if k != "int":
+                continue
+            cs = set()
+            for t in ent:
+                val = t["scal"].get(v, ("var", v))
+                a = ex.aff(val) if ex.is_int(val) else None
+                if a is None or set(a.c) != {v} or a.c[v] != 1 or v not in ts.state[t["src"]]:
+                    cs = None
+                    break
+                cs.add(a.k)
+            if cs and len(cs) == 1 and next(iter(cs)) != 0:
+                shift[v] = next(iter(cs))
+        if not shift:
+            continue
+        out = []
+        for t in ts.trans:
+            t2 = t
+            if t["src"] == node:
+                mp = {v: aff_ir(V(v) + c) for v, c in shift.items()}
+                t2 = map_trans(t2, lambda x, mp=mp: subst_vars(x, mp, ex), ts)
+            if t["dst"] == node:
+                sc = dict(t2["scal"])
+                for v, c in shift.items():
+                    val = sc.get(v, ("var", v)) if t["src"] != node else sc.get(v, aff_ir(V(v) + c))
+                    a = ex.aff(val) if ex.is_int(val) else None
+                    if a is None:
+                        raise Unsupported(f"non-affine update of the counter {v}")
+                    sc[v] = aff_ir(a - c)
+                t2 = dict(t2, scal=sc)
+            out.append(t2)
+        ts.trans = out
+        for v, c in sorted(shift.items()):
+            ts.notes.append(f"{v} at {node} taken as {v} - ({c})")
+    return ts
+
+
 # ---- equal variables, dead variables
 def merge_equal(ts):
     ex = ts.ex
@@ -1582,11 +1633,12 @@ def drop_arrays(ts, bases):
     return ts
 
 
-def normalise(ts, with_ret=False):
+def normalise(ts, with_ret=False, parent=None):
     ts = ts.copy()
     eliminate_caches(ts)
     drop_dead(ts, with_ret)
     reparametrise(ts)
+    retime(ts, parent if parent is not None else {"H2": "H1"})
     merge_equal(ts)
     drop_dead(ts, with_ret)
     return ts
